@@ -48,6 +48,10 @@ def check(repo, res, tier):
                        'earlier, the algorithm releases the reservation while a reserved machine is still busy, the entry '
                        'survives the release and is never dropped')
     borrow(repo, res, tier, c04, {'C04.T2'}, 'C09.R6')
+    res.rule('C09.R8', 'adopted C04.T3: the list of remaining tasks the algorithm sees holds exactly the unfinished tasks (an '
+                       'unfinished task missing from it makes the plan look complete: the reservation is released while that '
+                       'task still runs on a reserved machine)')
+    borrow(repo, res, tier, c04, {'C04.T3'}, 'C09.R8')
 
 
 def r1(repo, res, canon, pc, logic):
